@@ -462,6 +462,7 @@ class Installed(object):
         self.net = net or VNet(sched)
         self.saved = {}
         self.nthreads = 0
+        self.started = []       # NetworkingThread objects in start order
 
     def __enter__(self):
         from minecraft.networking import connection as C
@@ -489,6 +490,7 @@ class Installed(object):
             inst.nthreads += 1
             name = 'net%d' % inst.nthreads
             self_t._vname = name
+            inst.started.append(self_t)
             sched.log('thread_start', who=name, previous=getattr(getattr(self_t, 'previous_thread', None), '_vname', None))
             self_t._vt = sched.spawn(lambda: inst._run_thread(self_t), name, 'net')
             sched.progress()
